@@ -1,15 +1,18 @@
-(* Array.v -- executable model of GTC/uncertain_array.py (UncertainArray): shapes, flat
-   row-major element lists, NumPy's broadcasting rule, the `_broadcasted_shape` field that
-   outlives operations, `_create_empty`, `__array_ufunc__` dispatch (which input is `self`
-   is explicit), the element-wise method family, the two-argument wrappers (`_arctan2` is
-   modelled separately because it ignores its first input), attribute views, sensitivity /
-   u_component / core.atan2 (zip of the two `.flat` iterators, no broadcasting),
-   result(array, labels), copy(), and a pickle round trip (which loses both private
-   attributes).  Elements are abstract: a type E with a distinguished [none] (Python None /
-   an unwritten cell of np.empty) and opcode-indexed scalar operations returning [res E]
-   (a scalar operation may raise).  The model is run with E := Z (element identifiers, scalar
-   operations = a finite table recorded from scalar GTC) against the implementation, and
-   reasoned about for every E in ArrayFacts.v. *)
+(* Array.v -- executable model of GTC/uncertain_array.py (UncertainArray) AS REPAIRED by the
+   fixes C16-stale-broadcast-shape, C16-arctan2-* and C16-pickle-attributes: shapes, flat
+   row-major element lists, NumPy's broadcasting rule, the `_broadcasted_shape` field (still
+   there, still read by `_create_empty`, but now reset in a `finally` clause of
+   `__array_ufunc__` so that it is None whenever no ufunc is running), `__array_ufunc__`
+   dispatch (which input is `self` is explicit), the element-wise method family -- `_arctan2`
+   now builds its pairs from both inputs like every other two-argument wrapper, so it is an
+   ordinary [BGen] ufunc --, attribute views, sensitivity / u_component / core.atan2 (zip of
+   the two `.flat` iterators, no broadcasting: still a known finding), result(array, labels),
+   copy(), and a pickle round trip (`__array_finalize__` now sets both private attributes
+   first; the label is not carried by pickle).  Elements are abstract: a type E with a
+   distinguished [none] (Python None / an unwritten cell of np.empty) and opcode-indexed
+   scalar operations returning [res E].  The model is run with E := Z (element identifiers,
+   scalar operations = a finite table recorded from scalar GTC) against the implementation,
+   and reasoned about for every E in ArrayFacts.v. *)
 From Coq Require Import ZArith List Bool Arith Lia.
 From GTCV Require Import Num.
 Import ListNotations.
@@ -69,9 +72,12 @@ Fixpoint bidx (s r : shape) (idx : list nat) : list nat :=
 (* flat offset into an operand of shape s of the element that NumPy pairs with result index idx *)
 Definition src (s r : shape) (idx : list nat) : nat := flat (pad s r) (bidx (pad s r) r idx).
 
+(* what `_broadcasted_shape` holds.  [BUnset] (attribute missing) is only an OBSERVATION value: the
+   repaired code always sets the attribute, the model never produces it; the harness reports it if
+   the implementation ever shows it again *)
 Inductive bstate := BUnset | BNone | BSome (s : shape).
 Inductive akind := KU | KN.          (* UncertainArray | plain ndarray / list *)
-Inductive bkind := BGen | BCmp | BAtan2.
+Inductive bkind := BGen | BCmp.
 
 Definition F_POS : Z := 1.           (* +item  (copy, np.positive) *)
 Definition F_RES1 : Z := 90.         (* result(x) *)
@@ -104,8 +110,8 @@ Definition bcast_list (s r : shape) (cells : list E) : list E := bl (pad s r) r 
 (* ---------- array objects ---------- *)
 Record arr := mkArr {
   a_kind : akind; a_shape : shape; a_cells : list E;
-  a_bs : bstate;            (* _broadcasted_shape: unset (after unpickling) | None | a shape *)
-  a_label : E; a_pickled : bool }.
+  a_bs : bstate;            (* _broadcasted_shape *)
+  a_label : E }.
 Definition heap := list arr.
 
 Inductive operand := OA (i : nat) | OS (e : E).
@@ -149,7 +155,7 @@ Definition ce_shape (a : arr) : res shape :=
   end.
 
 Definition set_bs (a : arr) (b : bstate) : arr :=
-  mkArr (a_kind a) (a_shape a) (a_cells a) b (a_label a) (a_pickled a).
+  mkArr (a_kind a) (a_shape a) (a_cells a) b (a_label a).
 
 Fixpoint upd (h : heap) (i : nat) (f : arr -> arr) : heap :=
   match h, i with
@@ -159,7 +165,7 @@ Fixpoint upd (h : heap) (i : nat) (f : arr -> arr) : heap :=
   end.
 
 Definition fresh (k : akind) (s : shape) (cells : list E) (lbl : E) : arr :=
-  mkArr k s cells BNone lbl false.
+  mkArr k s cells BNone lbl.
 
 Definition is_ku (h : heap) (x : operand) : option nat :=
   match x with
@@ -183,7 +189,7 @@ Definition input (h : heap) (x other : operand) : option (shape * list E) :=
             end
   end.
 
-Definition bin_result_kind (bk : bkind) : akind := match bk with BCmp => KN | _ => KU end.
+Definition bin_result_kind (bk : bkind) : akind := match bk with BCmp => KN | BGen => KU end.
 
 Definition finish (h : heap) (k : akind) (s : shape) (r : res (list E)) (lbl : E) : heap * out :=
   match r with
@@ -198,26 +204,20 @@ Definition step_bin (h : heap) (bk : bkind) (f : Z) (x y : operand) : heap * out
   | Some self =>
     match input h x y, input h y x, nth_error h self with
     | Some (s0, c0), Some (s1, c1), Some me =>
-        let h0 := upd h self (fun a => set_bs a BNone) in       (* self._broadcasted_shape = None *)
+        (* self._broadcasted_shape = None before the shape test; and again in the `finally` clause
+           around the method call: whatever happens, the dispatcher holds None afterwards *)
+        let h0 := upd h self (fun a => set_bs a BNone) in
         if shape_eqb s0 s1 then
-          let pairs := match bk with
-                       | BAtan2 => combine (a_cells me) c1        (* _atan2(inputs[1]): (self, inputs[1]) *)
-                       | _ => combine c0 c1
-                       end in
           finish h0 (bin_result_kind bk) (a_shape me)
-                 (fill (size (a_shape me)) pairs (fun p => bin f (fst p) (snd p))) none
+                 (fill (size (a_shape me)) (combine c0 c1) (fun p => bin f (fst p) (snd p))) none
         else
           match bshape s0 s1 with
           | None => (h0, XExn ValueError)                        (* np.broadcast raises *)
           | Some r =>
-              let h1 := upd h self (fun a => set_bs a (BSome r)) in
-              match bk with
-              | BAtan2 => (h1, XExn AttributeError)              (* flatiter has no .flat *)
-              | _ =>
-                  finish h1 (bin_result_kind bk) r
-                         (fill (size r) (combine (bcast_list s0 r c0) (bcast_list s1 r c1))
-                               (fun p => bin f (fst p) (snd p))) none
-              end
+              (* while the method runs the dispatcher holds r, which _create_empty uses as the shape *)
+              finish h0 (bin_result_kind bk) r
+                     (fill (size r) (combine (bcast_list s0 r c0) (bcast_list s1 r c1))
+                           (fun p => bin f (fst p) (snd p))) none
           end
     | _, _, _ => (h, XExn OtherExn)
     end
@@ -263,7 +263,7 @@ Definition step_zip (h : heap) (f : Z) (i : nat) (ys : option (list E)) : heap *
   | _, _ => (h, XExn OtherExn)
   end.
 
-Definition label_of (a : arr) : res E := if a_pickled a then Err AttributeError else Ok (a_label a).
+Definition label_of (a : arr) : res E := Ok (a_label a).
 
 Definition step (h : heap) (o : op) : heap * out :=
   match o with
@@ -288,7 +288,7 @@ Definition step (h : heap) (o : op) : heap * out :=
       end
   | OPickle i =>
       match get_ku h i with
-      | Some a => (h ++ [mkArr KU (a_shape a) (a_cells a) BUnset none true], XArr KU (a_shape a) (a_cells a))
+      | Some a => (h ++ [fresh KU (a_shape a) (a_cells a) none], XArr KU (a_shape a) (a_cells a))
       | None => (h, XExn OtherExn)
       end
   end.
